@@ -312,3 +312,68 @@ Unit(
     ],
     canary="n_calls('load_models_using_filepattern') == 0",
 )
+
+
+# ---------------------------------------------------------------------------------------------
+# native replay: model parameters through the real API (validation against the loading metamodel's own
+# definitions, forwarding to the model, to imported models and to files loaded by repository)
+from txvc.props import replay_for  # noqa: E402
+
+
+def _params_battery():
+    import os
+    import shutil
+    import tempfile
+
+    from textx import metamodel_from_str
+    from textx.exceptions import TextXError
+
+    bad = []
+    mm_b = metamodel_from_str("Model: 'b' items+=ID;")
+    mm_a = metamodel_from_str("Model: 'a' items+=ID;")
+    mm_a.model_param_defs.add("strict", "only declared for language A")
+    mm_c = metamodel_from_str("Model: 'b' items+=ID;")
+    m = mm_a.model_from_str("a x y", strict=True)
+    if dict(m._tx_model_params) != {"strict": True}:
+        bad.append(f"declared parameter not forwarded unchanged: {dict(m._tx_model_params)}")
+    try:
+        mm_a.model_from_str("a x", other=1)
+        bad.append("an undeclared parameter was accepted by model_from_str")
+    except TextXError:
+        pass
+    d = tempfile.mkdtemp(prefix="txvc-c27-")
+    try:
+        fn = os.path.join(d, "model.b")
+        open(fn, "w").write("b x y")
+        for name, mm in (("created before", mm_b), ("created after", mm_c)):
+            if "strict" in mm.model_param_defs:
+                bad.append(f"a parameter declared on one metamodel shows up in another one ({name})")
+            for how, load in (("model_from_str", lambda: mm.model_from_str("b x y", strict=True)),
+                              ("model_from_file", lambda: mm.model_from_file(fn, strict=True))):
+                try:
+                    load()
+                    bad.append(f"{how} of a metamodel ({name}) that never declared 'strict' accepted it")
+                except TextXError:
+                    pass
+        fa = os.path.join(d, "model.a")
+        open(fa, "w").write("a x y")
+        mf = mm_a.model_from_file(fa, strict=5)
+        if dict(mf._tx_model_params) != {"strict": 5}:
+            bad.append(f"model_from_file did not forward the parameter: {dict(mf._tx_model_params)}")
+        if "project_root" not in mm_b.model_param_defs:
+            bad.append("the built-in parameter project_root is not declared")
+    finally:
+        shutil.rmtree(d, ignore_errors=True)
+    return bad
+
+
+def _replay_params(model, rec):
+    bad = _params_battery()
+    if bad:
+        return True, "model-parameter battery on the real code:\n  " + "\n  ".join(bad)
+    return False, "model-parameter battery: parameters are validated and forwarded as stated on the battery"
+
+
+for _u in ("model_params.check_params", "metamodel.model_from_file", "metamodel.model_from_str",
+           "model_params.ModelParamDefinitions.__init__", "model_params.ModelParamDefinitions.add"):
+    replay_for(_u)(_replay_params)
